@@ -179,7 +179,10 @@ def run_method(chooser, op, profile=None, pre_ops=()):
     failing = _failing(faults, method)
     # command()/query() deliberately ignore I/O exceptions for R / RB / BL (the board leaves the
     # bus); for exactly these only "no exception escapes" is asserted - interpretation (ii)
-    exempt = method in ("command", "query") and ref_name(args[0]).lower() in EXEMPT and \
+    # The exemption is as narrow as what the library does on purpose: command() alone skips the
+    # recording; query() goes on to its reply check, finds nothing, and records a timeout - so a
+    # raised exception in query('R' / 'RB' / 'BL') is held to the property as stated.
+    exempt = method == "command" and ref_name(args[0]).lower() in EXEMPT and \
         any(kind in ("write_exc", "read_exc") for _t, kind, _v in faults)
     if failing and exc is None and not exempt:
         if not is_failure_value(ret):
@@ -387,8 +390,9 @@ def run(ctx):
         "board model EBB3Board (future syntax: every reply starts with the request name)",
         "up-to-25-empty-reads clause asserted for command/query and everything built on them; "
         "query_statusbyte is a single-read poll (any latency counts as a failing deviation)",
-        "I/O exceptions on RB/R/BL are deliberately ignored by the library (board drops off "
-        "USB); for these only no-raise is asserted; reboot()/bootload() report failure by False",
+        "I/O exceptions on command('RB' / 'R' / 'BL') are deliberately ignored by the library "
+        "(board drops off USB); for these only no-raise is asserted (query() of the same names "
+        "records a timeout and is held to the full clause); reboot()/bootload() report failure by False",
         "malformed payloads after a correct name are not injected in (b); empty request strings "
         "are outside the quantifier",
     ]
